@@ -1,5 +1,27 @@
-(** C04 -- placeholder while the proofs are built *)
-From RL Require Import Model.Decode.
-Theorem C04_placeholder : m_decode strict_opts [] = Val (Err [IncompleteFlags], []).
-Proof. reflexivity. Qed.
-Print Assumptions C04_placeholder.
+(** C04 -- Data messages survive encode then decode.  [wf_data]: ids and
+    sequence numbers 16-bit, non-empty payload, length absent or equal to the
+    true total size, offset absent or n <= |data| - 1.  Holds under EVERY option
+    set (the encoder emits version 2 and no reserved bit).  The decoded value
+    reports no offset and the payload without its first n octets. *)
+From RL Require Import Model.Decode Model.Encode Spec.SpecDecode Spec.SpecEncode Proofs.RoundTrip Proofs.DataRoundTrip.
+
+Theorem C04_data_roundtrip : forall o d, wf_data d = true ->
+  exists b, m_encode (Data d) [] = Val b /\ b = s_enc_data d /\
+            m_decode o b = Val (Ok (Data (decoded_data d)), []).
+Proof. exact data_roundtrip. Qed.
+
+Theorem C04_data_roundtrip_spec : forall d, wf_data d = true ->
+  s_data (s_enc_data d) = Ok (Data (decoded_data d), []).
+Proof. exact data_roundtrip_spec. Qed.
+
+(** the D6 instance of the pinned tree: O bit, offset size 0, one payload octet *)
+Example C04_D6 :
+  wf_data {| d_prio := true; d_length := None; d_tunnel := 1; d_session := 2; d_nsnr := None;
+             d_offset := Some 0; d_data := [170] |} = true
+  /\ m_decode strict_opts [192;32;0;1;0;2;0;0;170]
+     = Val (Ok (Data {| d_prio := true; d_length := None; d_tunnel := 1; d_session := 2;
+                        d_nsnr := None; d_offset := None; d_data := [170] |}), []).
+Proof. split; vm_compute; reflexivity. Qed.
+
+Print Assumptions C04_data_roundtrip.
+Print Assumptions C04_data_roundtrip_spec.
